@@ -161,6 +161,57 @@ func runC09(c *Ctx) {
 			return true
 		})
 		if hasVar == nil {
+			// the membership test sits in an expanded helper that hands the variable back as its first
+			// result on every success return ((has, nil)): the caller's variable bound to that result
+			var inner types.Object
+			ast.Inspect(f.nodeAt(hasPt), func(n ast.Node) bool {
+				if as, ok := n.(*ast.AssignStmt); ok && len(as.Rhs) == 1 && ast.Unparen(as.Rhs[0]) == ast.Expr(hasCalls[0]) && len(as.Lhs) == 2 {
+					inner = objOfIdent(info, as.Lhs[0])
+				}
+				return true
+			})
+			if inner != nil {
+				inspectNoLit(f.Body, func(n ast.Node) bool {
+					as, ok := n.(*ast.AssignStmt)
+					if !ok || len(as.Rhs) != 1 || len(as.Lhs) != 2 {
+						return true
+					}
+					c, isCall := ast.Unparen(as.Rhs[0]).(*ast.CallExpr)
+					if !isCall {
+						return true
+					}
+					reg := f.regionByCall(c)
+					fn := staticCallee(info, c)
+					if reg == nil || fn == nil {
+						return true
+					}
+					hd := p.decls().byFunc[fn.Origin()]
+					if hd == nil || !(hd.Pos() <= hasCalls[0].Pos() && hasCalls[0].Pos() < hd.End()) {
+						return true
+					}
+					okRets, nSucc := true, 0
+					for _, rt := range reg.rets {
+						if len(rt.results) != 2 {
+							okRets = false
+							continue
+						}
+						if isNil(info, rt.results[1]) {
+							nSucc++
+							if objOfIdent(info, rt.results[0]) != inner {
+								okRets = false
+							}
+						} else if ec, isCall := ast.Unparen(rt.results[1]).(*ast.CallExpr); !isCall || !isNonNilErrorConstructor(calleeShort(info, ec)) {
+							okRets = false // an error result that may be nil with a different first result
+						}
+					}
+					if okRets && nSucc > 0 {
+						hasVar = objOfIdent(info, as.Lhs[0])
+					}
+					return true
+				})
+			}
+		}
+		if hasVar == nil {
 			r.Fail("size/accounting", key, f.PosOf(hasPt), "result of has() is not bound to a variable")
 			continue
 		}
@@ -735,6 +786,14 @@ func checkStoredValueNonNil(r *Reporter, p *Prog, pkg string, info *types.Info) 
 	})
 	if o := objOfIdent(info, valArg); o != nil {
 		locs = append(locs, loc{o, ""})
+		// the update sits in an expanded helper and the value is its parameter: the caller's variable
+		{
+			if arg, _, okA := f.paramArg(o, updates[0]); okA {
+				if ao := objOfIdent(info, arg); ao != nil {
+					locs = append(locs, loc{ao, ""})
+				}
+			}
+		}
 	} else if se, ok := ast.Unparen(valArg).(*ast.SelectorExpr); ok {
 		if o := objOfIdent(info, se.X); o != nil {
 			if sel := info.Selections[se]; sel != nil && sel.Kind() == types.FieldVal {
